@@ -730,7 +730,29 @@ def run(ctx: Ctx):
                 ctx.violation(f"corpus {v['file']}: conversion of byte(s) {[hex(b) for b in badb]} does not denote their Windows-1252 character",
                               case=c, expected=want if not badb else "each byte 0x80-0x9F replaced by a reference to its cp1252 character",
                               observed=u, stream="corpus")
-    ctx.exhaustive_parts.append(f"smart quotes: 32 bytes x 4 modes x {len(encs)} encodings ({', '.join(encs)}), alone and (carriers) in two contexts")
+    ctx.exhaustive_parts.append(f"smart quotes: 32 bytes x 4 modes x {len(encs)} encodings ({', '.join(encs)}), alone and (carriers) in four contexts")
+    # long documents: many bytes 0x80-0x9F (17, 32, 33, 100, 1000), as one run with all 32 values cycling, scattered among
+    # text, and one value repeated — every mode, every carrier (a substitution that stops after some count would show)
+    r = ctx.rng("long-smart")
+    for enc in car:
+        for mode in MODES:
+            for n in (17, 32, 33, 100, 1000) + ((5000,) if ctx.thorough else ()):
+                cyc = bytes(0x80 + i % 32 for i in range(n))
+                one = bytes([r.randrange(0x80, 0xA0)]) * n
+                layouts = [cyc, b"".join(bytes([x]) + r.choice([b"a", b" b", b"&", b"\xe9", b"<p>"]) for x in cyc), b"x" + one + b"y"]
+                for d in layouts:
+                    u, repl, o_u = real_dammit(d, [enc], mode)
+                    lines.append(dammit_line(d, [enc], mode)); impl.append(show_dammit(u, repl, o_u))
+                    c = {"op": "smart", "enc": enc, "mode": mode, "bytes": list(d)}
+                    cases.append(c)
+                    ctx.case(("Along", enc, mode, n, d[:3]) if mode is not None else None)
+                    ctx.count("smart:long")
+                    if mode is not None:
+                        want, badb = whole_input_oracle(d, enc, mode, piece)
+                        if u != want or repl:
+                            first = next((i for i, (x, y) in enumerate(zip(u or "", want)) if x != y), min(len(u or ""), len(want)))
+                            limited(ctx, f"long input ({n} bytes 0x80-0x9F): result is not the in-order concatenation of each byte's conversion "
+                                    f"(first difference at output offset {first})", case=c, expected=want, observed=u, stream="smart-long")
 
     # the un-escaper of the theorems vs html.unescape, on every reference the live table can emit
     ulines, uimpl, ucases = [], [], []
@@ -958,6 +980,24 @@ def run(ctx: Ctx):
             run_pieces([("c", 0x20AC), ("b", b), ("c", 0x1F600)], "detwingle-interleave", 99)
         for i in range(ctx.n(3000, 40000)):
             run_pieces(interleaving(), "detwingle-interleave", i)
+        # every ordered pair of embeddable bytes at offset 0 (some pairs look like a UTF-16/32 byte-order mark), alone and
+        # followed by text / by two NULs
+        tails = [[], [("c", ord(ch)) for ch in "plain"], [("c", 0), ("c", 0), ("c", 0x41)], [("c", 0x20AC)]]
+        k = 0
+        for b1 in conv:
+            for b2 in conv:
+                run_pieces([("b", b1), ("b", b2)], "detwingle-pairs", 99)
+                k += 1
+                run_pieces([("b", b1), ("b", b2)] + tails[1 + k % 3], "detwingle-pairs", 99)
+        ctx.exhaustive_parts.append(f"detwingle: all {len(conv)}x{len(conv)} ordered pairs of embeddable bytes at offset 0, alone and followed by text")
+        # long inputs: many embedded bytes (more than 16, more than 256), runs and scattered, every embeddable value repeated
+        r2 = ctx.rng("long-detwingle")
+        for n in (17, 33, 100, 257, 1000) + ((5000,) if ctx.thorough else ()):
+            cyc = [("b", conv[i % len(conv)]) for i in range(n)]
+            run_pieces(cyc, "detwingle-long", 99)                                                    # one run, all values cycling
+            run_pieces([x for p_ in cyc for x in (p_, ("c", rand_scalar(r2)))], "detwingle-long", 99)   # scattered among text
+            run_pieces([("c", 0x41)] + [("b", r2.choice(conv))] * n + [("c", 0x1F600)], "detwingle-long", 99)  # one value repeated
+            ctx.count("detwingle:long", 3)
 
     # C3. arbitrary bytes: pure correspondence (the real code never raises; truncated sequences are copied)
     r = ctx.rng("garbage")
